@@ -587,6 +587,7 @@ func BuildFromAliasedTable(query *Query, as string, expr sqlparser.SimpleTableEx
 			}
 			data, err := subquery.exec()
 			if err != nil {
+				subquery.wg.Wait()
 				return err
 			}
 			query.postProcessors = append(query.postProcessors, subquery.postProcessors...)
@@ -1356,6 +1357,7 @@ func SubqueryExpr(query *Query, current Map, expr *sqlparser.Subquery, opts ...E
 	}
 	rs, err := subQuery.exec()
 	if err != nil {
+		subQuery.wg.Wait()
 		return nil, err
 	}
 	query.postProcessors = append(query.postProcessors, subQuery.postProcessors...)
@@ -1443,6 +1445,7 @@ func ExistExpr(query *Query, current Map, expr *sqlparser.ExistsExpr, opts ...Ex
 	q.from = from
 	rs, err := q.exec()
 	if err != nil {
+		q.wg.Wait()
 		return false, err
 	}
 	array, ok := rs.([]any)
@@ -1997,10 +2000,11 @@ FINALIZE:
 
 func (query *Query) execAndPostProcess() (result any, err error) {
 	rs, err := query.exec()
+	// the calls that were launched are awaited on the error path as well
+	query.wg.Wait()
 	if err != nil {
 		return nil, err
 	}
-	query.wg.Wait()
 	for _, postProcessor := range query.postProcessors {
 		err := postProcessor()
 		if err != nil {
